@@ -314,7 +314,7 @@ def run(chk):
                           {'template': s})
 
     # 1. design check: machine refines rule layer, invariants, action properties (hist hidden by VIEW)
-    maxreq_mc = 4 if tier == 'quick' else 5
+    maxreq_mc = 4      # thorough widens the template/config/binding families instead (7.3M states); 5 requests exceed 35M
     mod = mc_module(abst, configs, bindings, maxreq_mc, variant)
     cfg_mc = CFG_MC if not os.environ.get('C15_ASBUILT') else CFG_MC.replace('INVARIANT RefinesRule\n', '')
     res = tlc.run('MC_Filenames', cfg_text=cfg_mc, extra_modules={'MC_Filenames.tla': mod},
@@ -338,7 +338,7 @@ def run(chk):
         chk.violation('design:Terminates', 'a request does not terminate: %s\n%s' % (resl.violated, resl.trace_text[:3000]))
 
     # 2. behaviours -> code
-    maxreq_emit = 3 if tier == 'quick' else 4
+    maxreq_emit = 3
     mod_e = mc_module(abst, configs, bindings, maxreq_emit, variant)
     rese = tlc.run('MC_Filenames', cfg_text=CFG_EMIT, extra_modules={'MC_Filenames.tla': mod_e}, timeout=3000)
     chk.add_tlc(rese, 'emit(MaxReq=%d)' % maxreq_emit)
